@@ -278,7 +278,11 @@ func buildEntryPoints() []entryPoint {
 			}
 			traps := randomTraps(r)
 			pattern := []int{AliasDistinct, AliasDX}[r.Intn(2)]
-			o, _, _ := CallAliased(op, br.Context(c, traps), x, y, r.Range(-20, 20), pattern, nil)
+			aux := r.Range(-20, 20)
+			if r.Chance(1, 10) {
+				aux = []int64{math.MinInt32, math.MaxInt32, -100001, 100001, -100000, 100000, math.MinInt32 + 1, -1 << 20}[r.Intn(8)]
+			}
+			o, _, _ := CallAliased(op, br.Context(c, traps), x, y, aux, pattern, nil)
 			if o.Flags&^br.AllFlags != 0 {
 				t.Fail("flag-invariant", detail(op, c, x, y, o, "undocumented condition bits"))
 			}
